@@ -235,7 +235,8 @@ def _splat_literal_tuples(tree: ast.AST) -> bool:
                         t = st.targets[0].id
                         mentioned = {x.id for e in st.value.elts for x in ast.walk(e) if isinstance(x, ast.Name)}
                         done = False
-                        for j in range(k + 1, min(k + 6, len(blk))):
+                        attr_only = all(all(isinstance(x, (ast.Name, ast.Attribute, ast.Load)) for x in ast.walk(e)) for e in st.value.elts)
+                        for j in range(k + 1, min(k + (12 if attr_only else 6), len(blk))):
                             later = blk[j]
                             calls = [c for c in ast.walk(later) if isinstance(c, ast.Call) and any(isinstance(a, ast.Starred) and isinstance(a.value, ast.Name) and a.value.id == t for a in c.args)]
                             if calls and isinstance(later, (ast.Assign, ast.Expr, ast.Return, ast.AnnAssign)):
@@ -251,7 +252,8 @@ def _splat_literal_tuples(tree: ast.AST) -> bool:
                                 changed = True
                                 done = True
                                 break
-                            if not isinstance(later, (ast.Assign, ast.AnnAssign)) or any(isinstance(x, ast.Name) and isinstance(x.ctx, (ast.Store, ast.Del)) and x.id in mentioned for x in ast.walk(later)):
+                            movable = isinstance(later, (ast.Assign, ast.AnnAssign)) or (attr_only and isinstance(later, ast.Expr) and isinstance(later.value, ast.Call))
+                            if not movable or any(isinstance(x, ast.Name) and isinstance(x.ctx, (ast.Store, ast.Del)) and x.id in mentioned for x in ast.walk(later)):
                                 break
                         if done:
                             continue
